@@ -61,6 +61,8 @@ static void enc_cfg(EbSvtAv1EncConfiguration *c, int variant) {
     c->source_width = W; c->source_height = H; c->enc_mode = 8; c->encoder_bit_depth = 8; c->logical_processors = 1; c->qp = 40; c->recon_enabled = variant & 1;
     if (variant & 2) { c->encoder_bit_depth = 10; }
     if (variant & 4) { c->logical_processors = 4; }
+    if (variant & 64) { c->logical_processors = 2; }     /* 2 and 3 logical processors: the process counts of the stages differ from each other only here */
+    if (variant & 128) { c->logical_processors = 3; }
     if (variant & 8) { c->screen_content_mode = 1; }
     if (variant & 16) { c->enc_mode = 4; }
     if (variant & 32) { c->stat_report = 1; }
